@@ -34,6 +34,13 @@ func pkgPathOf(fn *ssa.Function) string {
 	if fn.Pkg != nil {
 		return fn.Pkg.Pkg.Path()
 	}
+	// synthetic wrappers (promoted methods of an embedded interface or struct...): the wrapper belongs to
+	// the package of the receiver's type, whatever package declares the method it forwards to
+	if fn.Synthetic != "" && fn.Signature.Recv() != nil {
+		if n := namedOf(fn.Signature.Recv().Type()); n != nil && n.Obj().Pkg() != nil {
+			return n.Obj().Pkg().Path()
+		}
+	}
 	if o := fn.Object(); o != nil && o.Pkg() != nil {
 		return o.Pkg().Path()
 	}
@@ -112,6 +119,13 @@ func (m *Machine) externalUncached(fn *ssa.Function) externalFn {
 			return opaqueStub(name)
 		}
 		return nil
+	}
+	if path == "net" && fn.Blocks != nil && fn.Prog != nil {
+		// net.Pipe is pure Go (channels, a mutex, a once): its file is interpreted from the real SSA so that
+		// in-process connections (server.Client, local sessions) have their real, unbuffered semantics
+		if strings.HasSuffix(fn.Prog.Fset.Position(fn.Pos()).Filename, "/net/pipe.go") {
+			return nil
+		}
 	}
 	if path == "" {
 		// synthetic wrapper without package (e.g. bound method closures): interpret
